@@ -459,12 +459,12 @@ def _is_error(st: ast.AST, cls: str = "EncodeError") -> bool:
         st.value) == "odxraise" and cls in ast.unparse(st.value)
 
 
-def _scenario_paths(fn: ast.AST, env: Dict[str, object]):
+def _scenario_paths(fn: ast.AST, env: Dict[str, object], cls: str = "EncodeError"):
     """(paths of fn consistent with the scenario, does every one of them report an EncodeError,
     does none) -- paths that end in a `raise EncodeError` count as reporting"""
     paths = symbolic_paths(fn)
     cons = [p for p in paths if all(eval_test(t, env) in (None, pol) for t, pol in p.conds)]
-    errs = [any(_is_error(st) for st in p.trace) for p in cons]
+    errs = [any(_is_error(st, cls) for st in p.trace) for p in cons]
     # a scenario whose every path leaves through `raise` has no path to EXIT at all
     return cons, (all(errs) if cons else True), (not any(errs) and bool(cons))
 
@@ -566,6 +566,27 @@ def _required(prog: Program, run: Run) -> None:
                       f"PREDEFINED_SYSPARAM_VALUES and lacks {sorted(pre - consts)}: "
                       "is_required and the encoder disagree for these system parameters",
                       sp.loc)
+    # a SYSTEM parameter of a kind odxtools cannot compute is required: its omission is rejected
+    # by the structure (centrally, for every kind) or by the parameter itself
+    cc = prog.func("odxtools.codec:composite_codec_encode_into_pdu")
+    central = False
+    for x in walk_no_nested(cc.node):
+        if isinstance(x, ast.If) and any(isinstance(y, ast.Attribute) and y.attr == "is_required"
+                                         for y in ast.walk(x.test)) and any(
+                _is_error(s_) for s_ in x.body):
+            central = True
+    _c, own_err, _n = _scenario_paths(enc.node, {enc.params()[1]: None,
+                                                 "self.sysparam": "SOMETHING-ELSE"}, cls="")
+    if central or own_err:
+        run.ok(R, "SystemParameter.is_required", "a missing value for a SYSPARAM that cannot be "
+               "computed is rejected " + " and ".join(
+                   (["by the structure"] if central else []) +
+                   (["by the parameter"] if own_err else [])), enc.loc)
+    else:
+        run.violation(R, "SystemParameter.is_required", "omission-accepted",
+                      "a SYSTEM parameter whose SYSPARAM is not predefined is reported as "
+                      "required, but neither composite_codec_encode_into_pdu nor the parameter "
+                      "rejects its omission: the structure encodes without it", enc.loc)
     ts = prog.cls("TableStructParameter")
     enc = ts.methods["_encode_positioned_into_pdu"]
     req = ts.methods.get("is_required")
